@@ -200,7 +200,9 @@ func (fu *folderUpload) FormattedPath() string {
 		pathData = pathData[3+segLen:]
 	}
 
-	return filepath.Join(pathSegments...)
+	// The segments come straight from the client: resolve them under a leading "/" so that ".." cannot climb out of
+	// the upload target, then make the result relative again.
+	return strings.TrimPrefix(filepath.Join("/", filepath.Join(pathSegments...)), "/")
 }
 
 type FileHeader struct {
